@@ -161,6 +161,7 @@ type Model struct {
 	// statement treats them as two stakes; used only to classify a mismatch precisely.
 	Collided map[string]*Stake // owner -> stake
 	LostToCollision []*big.Int
+	EVM             EVMHook
 	punitive        bool // the current block carried evidence or missed signatures
 }
 
@@ -452,6 +453,10 @@ type TxInfo struct {
 	SenderPub   string
 	ToIsContract bool // the receiver carries a native code marker (model knowledge)
 	Created     string // address created by a successful deployment
+	TxIdx       int
+	Data        []byte
+	Logs        []string // the implementation's EVM log events, canonical strings
+	ErrLog      string
 }
 
 func (m *Model) isVal(a string) bool {
@@ -463,8 +468,26 @@ func (m *Model) isVal(a string) bool {
 	return false
 }
 
+// EVMHook lets C17 replace the model's simple treatment of contract transactions by the reference EVM.
+type EVMHook interface {
+	// Handles reports whether the reference world treats this transaction as an EVM message.
+	Handles(m *Model, t *TxInfo) bool
+	Deliver(m *Model, t *TxInfo)
+}
+
+func (m *Model) Report(prop, kind, site, format string, a ...interface{}) { m.find(prop, kind, site, format, a...) }
+func (m *Model) Touch(a, why string)                                     { m.touch(a, why) }
+func (m *Model) AddFee(x *big.Int)                                       { m.fees.Add(m.fees, x) }
+func (m *Model) Account(a string) *Acct                                  { return m.acct(a) }
+func (m *Model) Cur() int64                                              { return m.cur }
+func (m *Model) Proposer() string                                        { return m.proposer }
+
 // DeliverTx applies one delivered transaction, conditioned on the implementation's result.
 func (m *Model) DeliverTx(t *TxInfo) {
+	if m.EVM != nil && m.EVM.Handles(m, t) {
+		m.EVM.Deliver(m, t)
+		return
+	}
 	if t.Code != 0 {
 		return // C05: a failed transaction does not move the model
 	}
